@@ -83,6 +83,17 @@ class VLock(object):
         self.release()
 
 
+def find_locks(*objs):
+    """Lock-like attributes (acquire + locked) of the given objects, by attribute name.  The checks must keep working when a
+    refactoring renames private lock attributes, so locks are discovered, not looked up by name."""
+    out = {}
+    for o in objs:
+        for k, v in sorted(vars(o).items()):
+            if hasattr(v, 'acquire') and hasattr(v, 'locked') and hasattr(v, 'release'):
+                out[k] = v
+    return out
+
+
 class Session(object):
     def __init__(self, ch, cfg, twin='sync', default_timeout=None, banner=b'verif', explore_io=False, **envkw):
         envkw_lock = envkw.pop('lock_factory', None)
